@@ -62,7 +62,7 @@ register(
     "(R3e) the entry's cleaning flag is false only on paths the document-synchronisation handlers cannot reach. "
     "Does not decide equality with a freshly built index for every history.",
     [r3.r3a_clean_before_append, r3.r3b_failure_path_readonly, r3.r3e_who_skips_cleaning, r3.r3h_wrappers_always_analyse,
-     r2.r2f_no_whole_value_insert, r3d.r3d_hit, r3d.r3d_stamp_origin, r3d.r3d_bump, r8.r11a_analyze_then_publish, r10.r10h_analysed_marker, r3.r3i_every_analysis_parses, r2.r2g_canonicaliser_whole_path],
+     r2.r2f_no_whole_value_insert, r3d.r3d_hit, r3d.r3d_stamp_origin, r3d.r3d_bump, r8.r11a_analyze_then_publish, r10.r10h_analysed_marker, r3.r3i_every_analysis_parses, r2.r2g_canonicaliser_whole_path, r3.r3k_definition_index_in_step],
 )
 
 register(
@@ -80,7 +80,7 @@ register(
     "Structural conditions for references being the inverse of go-to-definition: (R3c) the per-file usage map and its "
     "per-name reverse index are appended in step from one FixtureUsage, removals are paired with a by-file clear of "
     "the reverse index, no other writer exists. The equivalence itself for every (definition, usage) pair is not decided.",
-    [r3.r3c_reverse_index, r3.r3a_clean_before_append, r5.r5c_selfref_pairing, r5.r5g_usage_attribution, r4.r4b_unordered_pick, r2.r2h_handlers_pass_canonical_paths, r5.r5j_record_identity, r4.r4e_local_memo_keys, r4.r4f_no_prefix_adaptors] + CACHE,
+    [r3.r3c_reverse_index, r3.r3a_clean_before_append, r5.r5c_selfref_pairing, r5.r5g_usage_attribution, r4.r4b_unordered_pick, r2.r2h_handlers_pass_canonical_paths, r5.r5j_record_identity, r4.r4e_local_memo_keys, r4.r4f_no_prefix_adaptors, r3.r3j_references_decided_by_resolution] + CACHE,
 )
 
 from . import r3d
@@ -103,7 +103,7 @@ register(
     "Visitor-coverage clauses of index fidelity: (R6a) the yield-line visitor and the generator-status visitor descend "
     "into the same statement-list fields, (R6b) both cover every statement-list field of the AST type universe except "
     "nested scopes. Field values (names, scopes, dependency order, docstrings, usages from marks) are not decided.",
-    [r6.r6a_yield_siblings, r6.r6b_yield, r6.r6d_all_decorators, r6.r6e_visit_order, r6.r6f_any_visitor_returns_true_only, r9.r9_char_count_plus_bytes, r8.r8d_decorator_keywords, r3.r3a_clean_before_append, r3.r3b_failure_path_readonly, r3.r3i_every_analysis_parses, r8.r8i_docstring_blank_lines],
+    [r6.r6a_yield_siblings, r6.r6b_yield, r6.r6d_all_decorators, r6.r6e_visit_order, r6.r6f_any_visitor_returns_true_only, r9.r9_char_count_plus_bytes, r8.r8d_decorator_keywords, r3.r3a_clean_before_append, r3.r3b_failure_path_readonly, r3.r3i_every_analysis_parses, r8.r8i_docstring_blank_lines, r4.r4f_no_prefix_adaptors],
 )
 
 register(
@@ -111,7 +111,7 @@ register(
     "Visitor-coverage clauses of undeclared-fixture precision: (R6b) the body visitors descend into every nested "
     "statement list, (R6c) every name-binding form of the language is read by the local-variable collector and all "
     "parameter kinds are enumerated. The quick-fix text edit is a string-value property and is not decided.",
-    [r6.r6b_body, r6.r6c_binding_forms, r6.r6g_scope_seeds_after_collector, r10.r10i_no_textual_path_prefix, r3.r3h_wrappers_always_analyse, r8.r11a_analyze_then_publish, r8.r8a_diagnostic_codes, r2.r2h_handlers_pass_canonical_paths, r6.r6h_parameter_enumerators, r6.r6i_locals_grow_only],
+    [r6.r6b_body, r6.r6c_binding_forms, r6.r6g_scope_seeds_after_collector, r10.r10i_no_textual_path_prefix, r3.r3h_wrappers_always_analyse, r8.r11a_analyze_then_publish, r8.r8a_diagnostic_codes, r2.r2h_handlers_pass_canonical_paths, r6.r6h_parameter_enumerators, r6.r6i_locals_grow_only, r7.r7g_take_after_skip_is_a_count, r6.r6k_declared_names_are_parameters, r4.r4f_no_prefix_adaptors],
 )
 
 from . import r5
@@ -203,7 +203,7 @@ register(
     "before it is returned, (R4b) first-match exits from such iterations are reviewed for uniqueness of the match, "
     "(R4c) order-sensitive selections over the per-name definition vector (registration order = scan schedule) are "
     "pinned to one file. Ties under non-total sort keys and other channels of nondeterminism are not decided.",
-    [r4.r4a_unordered, r4.r4b_unordered_pick, r5.r4c_order_sensitive, r2.r2a_atomic_ops, r10.r10f_no_short_circuit, r1.r1f_no_try_lock, r4.r4d_sort_keys_are_projections, r3d.r3d_memo_context, r10.r10i_no_textual_path_prefix, r4.r4e_local_memo_keys, _r5d_flags, r4.r4f_no_prefix_adaptors],
+    [r4.r4a_unordered, r4.r4b_unordered_pick, r5.r4c_order_sensitive, r2.r2a_atomic_ops, r10.r10f_no_short_circuit, r1.r1f_no_try_lock, r4.r4d_sort_keys_are_projections, r3d.r3d_memo_context, r10.r10i_no_textual_path_prefix, r4.r4e_local_memo_keys, _r5d_flags, r4.r4f_no_prefix_adaptors, r4.r4h_no_pick_in_hash_order],
 )
 
 from . import r8
@@ -224,7 +224,7 @@ register(
     "configuration loader, each Diagnostic and each collector sits on the not-disabled edge of the gate with its own "
     "code; (R11a) in did_open/did_change the analysis is always followed by publishing for the same document. "
     "Equality of the last published set with the latest content for every history is not decided.",
-    [r8.r8a_diagnostic_codes, r8.r11a_analyze_then_publish, r2.r2e_canonical_read_keys, r2.r2g_canonicaliser_whole_path, r3.r3a_clean_before_append, r2.r2h_handlers_pass_canonical_paths, r8.r8g_config_text_goes_to_the_parser] + CACHE,
+    [r8.r8a_diagnostic_codes, r8.r11a_analyze_then_publish, r2.r2e_canonical_read_keys, r2.r2g_canonicaliser_whole_path, r3.r3a_clean_before_append, r2.r2h_handlers_pass_canonical_paths, r8.r8g_config_text_goes_to_the_parser, r7.r7_slicing, r7.r7h_string_index_calls] + CACHE,
 )
 
 register(
@@ -235,7 +235,7 @@ register(
     "like the server. Equality of counts with the server and byte-identical output are not decided.",
     [r8.r11b_exit_status, r8.r11d_json_output, r8.r11e_report_root_is_scan_root,
      lambda ctx: r4.r4a_unordered(ctx, only_fns=["get_unused_fixtures", "print_fixtures_tree", "compute_definition_usage_counts"], rule="R4a"),
-     r5.r5c_selfref_pairing, r4.r4d_sort_keys_are_projections, r4.r4e_local_memo_keys, r8.r11f_unused_report_ignores_plugin_flag, r4.r4f_no_prefix_adaptors, r5.r5g_usage_attribution],
+     r5.r5c_selfref_pairing, r4.r4d_sort_keys_are_projections, r4.r4e_local_memo_keys, r8.r11f_unused_report_ignores_plugin_flag, r4.r4f_no_prefix_adaptors, r5.r5g_usage_attribution, r4.r4h_no_pick_in_hash_order],
 )
 
 register(
@@ -257,7 +257,7 @@ register(
     "their progress step on every path and the dependency-graph worklist expands each node once. Other panic sources "
     "(slice bounds, usize arithmetic, range order), panics inside dependencies, stack exhaustion and scan isolation are "
     "not decided.",
-    [r7.r7_slicing, r7.r7_range_order, r7.r7_sub_underflow, r7.r7_index_bounds, r7.r7_u32_overflow, r7.r7_unwrap, r1e.r1e_loop_progress, r1.r1a_reentrancy, r1.r1b_order, r1.r1c_await, r1.r1d_recursion],
+    [r7.r7_slicing, r7.r7h_string_index_calls, r7.r7_range_order, r7.r7_sub_underflow, r7.r7_index_bounds, r7.r7_u32_overflow, r7.r7_unwrap, r1e.r1e_loop_progress, r1.r1a_reentrancy, r1.r1b_order, r1.r1c_await, r1.r1d_recursion],
 )
 
 from . import r10
@@ -268,7 +268,7 @@ register(
     "of the value given to WalkDir::new) and the directory filter is depth-aware; (R10b) the walk's file-name predicate "
     "and the import-scan seed predicate use the same literal tests; (R10f) the parallel phase uses a "
     "non-short-circuiting consumer. That exactly pytest's file set is indexed for every tree is not decided.",
-    [r10.r10a_relocation, r10.r10a2_classification_relative, r10.r10b_filename_predicates, r10.r10f_no_short_circuit, r1.r1f_no_try_lock, r10.r10k_config_location, r8.r11e_report_root_is_scan_root, r10.r10l_skip_predicate_exact, r8.r8g_config_text_goes_to_the_parser, r10.r10n_excludes_from_loaded_config, r10.r10o_root_known_before_analysis],
+    [r10.r10a_relocation, r10.r10a2_classification_relative, r10.r10b_filename_predicates, r10.r10f_no_short_circuit, r1.r1f_no_try_lock, r10.r10k_config_location, r8.r11e_report_root_is_scan_root, r10.r10l_skip_predicate_exact, r8.r8g_config_text_goes_to_the_parser, r10.r10n_excludes_from_loaded_config, r10.r10o_root_known_before_analysis, r10.r10p_pattern_compiled_as_written],
 )
 
 register(
@@ -290,5 +290,5 @@ register(
     "str::find results) must not reach Position.character (UTF-16) unconverted, (R9b) the request's UTF-16 cursor "
     "column must not be compared with byte columns or used as a character index. Concrete token positions (off-by-one, "
     "range containment, duplicates) are value facts and are not decided.",
-    [r9.r9_bytes_to_utf16, r9.r9_utf16_vs_bytes, r9.r9_line_base, r9.r9_char_count_plus_bytes, r5.r5i_per_document_items_pinned, r3d.r3d_stamp_origin, r3.r3a_clean_before_append, r2.r2h_handlers_pass_canonical_paths, r6.r6b_yield, r4.r4g_zip_sides_agree],
+    [r9.r9_bytes_to_utf16, r9.r9_utf16_vs_bytes, r9.r9_line_base, r9.r9_char_count_plus_bytes, r5.r5i_per_document_items_pinned, r3d.r3d_stamp_origin, r3.r3a_clean_before_append, r2.r2h_handlers_pass_canonical_paths, r6.r6b_yield, r4.r4g_zip_sides_agree, r9.r9e_name_search_uses_identifier],
 )
